@@ -63,7 +63,7 @@ pub fn recode(rec: &mut kernel::rec::Rec, lib: &dyn Lib, g: Grp, ty: Ty, ci: Cod
 /// The message-length classes of the shared grid (DESIGN §4).
 /// (the tail: SHA-256 block/padding boundaries 55/56/63/64/65/119/120 — also reached with a 48- or 96-byte key
 /// prefix through 7/8/15/16/17/23/24 — and the SHAKE-128 rate 168)
-pub const LEN_CLASSES: [usize; 36] = [0, 1, 31, 32, 33, 127, 128, 129, 255, 256, 257, 4096, 16382, 16383, 16384, 65536, 40, 100, 55, 56, 63, 64, 65, 119, 120, 167, 168, 169, 7, 8, 15, 16, 17, 23, 24, 336];
+pub const LEN_CLASSES: [usize; 38] = [0, 1, 31, 32, 33, 127, 128, 129, 255, 256, 257, 4096, 16382, 16383, 16384, 65536, 40, 100, 55, 56, 63, 64, 65, 119, 120, 167, 168, 169, 7, 8, 15, 16, 17, 23, 24, 336, 65535, 65537];
 
 pub fn message(x: &mut kernel::seams::Xo, class: usize) -> Vec<u8> {
     let len = if class < LEN_CLASSES.len() { LEN_CLASSES[class] } else { x.below(300) as usize };
